@@ -16,7 +16,8 @@
    contracts/contracts_v2 + contract_(v2_)sector_roots = [cons]; host_stats = [mets].
 
    The v2 expiry selection is modelled as in the code WITH fixes/C08-v2-expiry-status.patch
-   (contract_status compared with the v2 TEXT constant): see [exp_sel].
+   (contract_status compared with the v2 TEXT constant): see [exp_sel]; StoreSector's rollback
+   WITH fixes/C08-store-rollback-conditional.patch: see [rollback].
 
    Choices SQLite makes (which empty slot, which volume id) are carried by the operation as
    observed on the implementation and *validated* by the model ([OBad] if the implementation
@@ -233,8 +234,9 @@ Inductive op :=
 | Grow (v n : N) | Shrink (v n : N) | RemoveVol (v : N) (force : bool)
 | SetRO (v : N) (b : bool) | SetAvail (v : N) (b : bool)
 | Store (r : N) (loc : option (N * N)) (ok : bool)  (* loc: location handed to fn (None: fn not called); ok: fn's result *)
+| StoreRemoved (r : N) (loc : option (N * N))       (* fn calls RemoveSector r, then fails *)
 | Migrate (v start : N) (calls : list (N * (N * N) * bool))  (* per migrateFn call: from index, to location, result *)
-| RemoveSector (r : N) | Location (r : N) | Has (r : N)
+| RemoveSector (r : N) | Location (r : N) | Has (r : N) | Refs (r : N)
 | AddTemp (l : list (N * N)) | AddTemp1 (r exp : N) | ExpireTemp (h : N)
 | AddC (c : N) (v2 : bool) (endh neg : N) | Reject (h : N)
 | ReviseV1 (c : N) (chs : list change) | ReviseV2 (c : N) (new : list N)
@@ -249,6 +251,7 @@ Inductive obs :=
 | ORes (r : res unit)
 | OLoc (l : option (N * N))
 | OHas (b : bool)
+| ORefs (n : option (N * N))   (* SectorReferences: distinct v1 contracts, temp entries; None: unknown root *)
 | OMig (migrated failed : N) (r : res unit)
 | OSnap (vs : list (N * bool * bool * Z * Z)) (m : Z * Z * Z * Z * Z)
         (locs : list (option (N * N))) (cr : list (N * bool * list N))
@@ -261,30 +264,53 @@ Definition fin (s : state) (r : res state) : state * obs :=
   | Panic => (s, ORes Panic)
   end.
 
-(* StoreSector *)
-Definition store (r : N) (loc : option (N * N)) (ok : bool) (s : state) : state * obs :=
+(* StoreSector, first transaction: the sector exists / there is no room / it is placed at the
+   location the implementation picked *)
+Inductive rsv := RExists | RFull | RPlaced (s1 : state) (v i : N) | RFail (o : obs) | RBad.
+
+Definition reserve (r : N) (loc : option (N * N)) (s : state) : rsv :=
   match vfind r (vols s) with
-  | Some _ => match loc with None => (add_known r s, ORes (Ok tt)) | Some _ => (s, OBad) end
+  | Some _ => match loc with None => RExists | Some _ => RBad end
   | None =>
-      if negb (has_free s) then
-        match loc with None => (s, ORes (Err ENotEnoughStorage)) | Some _ => (s, OBad) end
+      if negb (has_free s) then match loc with None => RFull | Some _ => RBad end
       else match loc with
-           | None => (s, OBad)
+           | None => RBad
            | Some (v, i) =>
-               if negb (valid_free s v i) then (s, OBad) else
+               if negb (valid_free s v i) then RBad else
                match vol_usage v 1 (set_slot v i (Some r) (add_known r s)) with
-               | Ok s1 =>
-                   if ok then (s1, ORes (Ok tt))
-                   else (* fn failed: second transaction clears the slot again (best effort) *)
-                     match vol_usage v (-1) (set_slot v i None s1) with
-                     | Ok s2 => (s2, ORes (Err EOther))
-                     | Err _ => (s1, ORes (Err EOther))
-                     | Panic => (s1, ORes Panic)
-                     end
-               | Err e => (s, ORes (Err EOther))
-               | Panic => (s, ORes Panic)
+               | Ok s1 => RPlaced s1 v i
+               | Err e => RFail (ORes (Err EOther))
+               | Panic => RFail (ORes Panic)
                end
            end
+  end.
+
+Definition slots_of (v : N) (s : state) : slots :=
+  match vget v (vols s) with Some vl => vslots vl | None => [] end.
+
+(* StoreSector, rollback transaction after fn failed (best effort: its own failure is only
+   logged).  As patched by fixes/C08-store-rollback-conditional.patch: the slot is released and
+   the usage decremented only if the slot still holds the sector. *)
+Definition rollback (r v i : N) (s1 : state) : state * obs :=
+  match sget i (slots_of v s1) with
+  | Some (Some r') =>
+      if (r' =? r)%N then
+        match vol_usage v (-1) (set_slot v i None s1) with
+        | Ok s2 => (s2, ORes (Err EOther))
+        | Err _ => (s1, ORes (Err EOther))
+        | Panic => (s1, ORes Panic)
+        end
+      else (s1, ORes (Err EOther))
+  | _ => (s1, ORes (Err EOther))
+  end.
+
+Definition store (r : N) (loc : option (N * N)) (ok : bool) (s : state) : state * obs :=
+  match reserve r loc s with
+  | RExists => (add_known r s, ORes (Ok tt))
+  | RFull => (s, ORes (Err ENotEnoughStorage))
+  | RPlaced s1 v i => if ok then (s1, ORes (Ok tt)) else rollback r v i s1
+  | RFail o => (s, o)
+  | RBad => (s, OBad)
   end.
 
 (* RemoveSector *)
@@ -296,6 +322,18 @@ Definition remove_sector (r : N) (s : state) : res state :=
       do s1 <- vol_usage v (-1) (set_slot v i None s) ;
       do lo <- stat_inc (mLost (mets s1)) 1 ;
       Ok (with_mets s1 (set_mLost (mets s1) lo))
+  end.
+
+(* a write whose fn removes the very sector (operator's RemoveSector racing the upload) and
+   then fails *)
+Definition store_removed (r : N) (loc : option (N * N)) (s : state) : state * obs :=
+  match reserve r loc s with
+  | RPlaced s1 v i =>
+      match remove_sector r s1 with
+      | Ok s2 => rollback r v i s2
+      | _ => (s, OBad)
+      end
+  | _ => (s, OBad)
   end.
 
 (** * Migration (one transaction per sector) *)
@@ -329,9 +367,6 @@ Definition mig_move (v idx r : N) (to : N * N) (s : state) : res state :=
   let s1 := set_slot (fst to) (snd to) (Some r) (set_slot v idx None s) in
   if (v =? fst to)%N then Ok s1
   else do s2 <- vol_usage v (-1) s1 ; vol_usage (fst to) 1 s2.
-
-Definition slots_of (v : N) (s : state) : slots :=
-  match vget v (vols s) with Some vl => vslots vl | None => [] end.
 
 Fixpoint migrate (fuel : nat) (v start index : N) (calls : list (N * (N * N) * bool))
          (mig fail : N) (s : state) : state * obs :=
@@ -502,12 +537,15 @@ Fixpoint prune_vols (f : N -> bool) (l : list vol) : res (list vol * Z) :=
            Ok (set_used (set_slots vl (pslots f (vslots vl))) (vused vl - c)%Z :: t', (c + n)%Z)
   end.
 
-(* all = the cutoff is later than every access (otherwise nothing qualifies) *)
-Definition prune (all : bool) (s : state) : res state :=
-  if negb all then Ok s else
-  do (vs, n) <- prune_vols (refd s) (vols s) ;
+(* prune the slots whose sector fails [keep] *)
+Definition prune_with (keep : N -> bool) (s : state) : res state :=
+  do (vs, n) <- prune_vols keep (vols s) ;
   do p <- stat_inc (mPhys (mets s)) (- n) ;
   Ok (with_mets (with_vols s vs) (set_mPhys (mets s) p)).
+
+(* all = the cutoff is later than every access (otherwise nothing qualifies) *)
+Definition prune (all : bool) (s : state) : res state :=
+  if negb all then Ok s else prune_with (refd s) s.
 
 (** * Single-row pieces of the batch loops *)
 Fixpoint del_nth (i : nat) (l : list N) : list N :=
@@ -542,6 +580,11 @@ Definition prune_one (v i : N) (s : state) : res state :=
   end.
 
 (** * Observations *)
+Definition count_v1 (r : N) (l : list contract) : N :=
+  N.of_nat (length (filter (fun c => negb (cv2 c) && mem r (croots c)) l)).
+Definition count_temp (r : N) (l : list (N * N)) : N :=
+  N.of_nat (length (filter (fun t => (fst t =? r)%N) l)).
+
 Definition snapshot (rs : list N) (s : state) : obs :=
   OSnap (map (fun vl => (vid vl, vro vl, vavail vl, vtotal vl, vused vl)) (vols s))
         (mTotal (mets s), mPhys (mets s), mLost (mets s), mContract (mets s), mTemp (mets s))
@@ -557,10 +600,12 @@ Definition step (s : state) (o : op) : state * obs :=
   | SetRO v b => (set_flag v (fun x => set_ro x b) s, ORes (Ok tt))
   | SetAvail v b => (set_flag v (fun x => set_avail x b) s, ORes (Ok tt))
   | Store r loc ok => store r loc ok s
+  | StoreRemoved r loc => store_removed r loc s
   | Migrate v start calls => migrate (S (length (slots_of v s))) v start start calls 0 0 s
   | RemoveSector r => fin s (remove_sector r s)
   | Location r => (s, OLoc (if mem r (known s) then vfind r (vols s) else None))
   | Has r => (s, OHas (mem r (known s) && refd s r))
+  | Refs r => (s, ORefs (if mem r (known s) then Some (count_v1 r (cons s), count_temp r (temps s)) else None))
   | AddTemp l => fin s (add_temps l s)
   | AddTemp1 r e => fin s (add_temp1 r e s)
   | ExpireTemp h => fin s (expire_temp h s)
@@ -597,6 +642,7 @@ Definition obs_eqb (a b : obs) : bool :=
   | ORes x, ORes y => res_eqb unit_eqb x y
   | OLoc x, OLoc y => option_eqb loc_eqb x y
   | OHas x, OHas y => Bool.eqb x y
+  | ORefs x, ORefs y => option_eqb loc_eqb x y
   | OMig m f r, OMig m' f' r' => ((m =? m') && (f =? f'))%N && res_eqb unit_eqb r r'
   | OSnap v m l c, OSnap v' m' l' c' =>
       list_eqb vrow_eqb v v' && met_eqb m m' && list_eqb (option_eqb loc_eqb) l l' && list_eqb crow_eqb c c'
